@@ -21,7 +21,7 @@ import time
 from checklib import core
 
 SPECDIR = os.path.join(core.SPEC, "wire")
-KINDS = {"C05": ("hf", "hb", "rt"), "C06": ("rd",)}
+KINDS = {"C05": ("hf", "hb", "rt", "wc"), "C06": ("rd", "it")}
 PARTS = {"C05": "c05", "C06": "c06"}
 
 _RE_BAD = re.compile(r'<<\s*"BAD",\s*(\d+),\s*(\{[^}]*\}),\s*(\{[^}]*\})\s*>>', re.S)
@@ -68,6 +68,10 @@ def case_of(ev):
         return c
     if k == "rd":
         return {"k": "rd", "v": ev["v"], "hint": ev["hint"], "cap": ev["cap"], "bytes": ev["bytes"]}
+    if k == "wc":
+        return {"k": "wc", "v": ev["v"], "p": ev["p"], "caps": [w["cap"] for w in ev.get("ws", [])]}
+    if k == "it":
+        return {"k": "it", "v": ev["v"], "nc": ev["nc"], "data": ev["data"]}
     return ev
 
 
@@ -75,8 +79,10 @@ def _subkind(ev):
     k = ev.get("k")
     if k in ("hf", "hb"):
         return ev.get("hk", "?")
-    if k == "rt":
+    if k in ("rt", "wc"):
         return ev.get("p", {}).get("t", "?") + ("/" + ev["p"]["c"] if ev.get("p", {}).get("t") == "ctrl" else "")
+    if k == "it":
+        return "chunks-iter"
     if k == "rd":
         out = ev.get("out", {})
         if out.get("r") == "ok":
@@ -96,8 +102,11 @@ def _observed(ev):
             for kk, vv in o.items():
                 if kk == "w" and isinstance(vv, list):
                     seen.update(x for x in vv if isinstance(x, str))
-                elif kk in ("un", "rd", "rd2", "rw", "out", "ci", "wr", "din", "rpod", "init", "built"):
+                elif kk in ("un", "rd", "rd2", "rw", "out", "ci", "wr", "din", "rpod", "init", "built", "ref", "api", "end"):
                     walk(vv)
+                elif kk in ("ws", "steps", "after") and isinstance(vv, list):
+                    for x in vv:
+                        walk(x)
     walk(ev)
     return sorted(seen)
 
@@ -130,6 +139,16 @@ def tlc_export_exec(ctx, bins, cfg, events_path, timeout, label):
     hang = [l for l in out.splitlines() if l.startswith("HANG ")]
     m = re.search(r"EVENTS (\d+) PANICS (\d+)", out)
     nev = int(m.group(1)) if m else 0
+    # sweeps of whole header spaces on the real code against the class tables TLC exported (WireTab.tla)
+    sweeps = []
+    for mm in re.finditer(r"^SWEEP (\S+) sfx=(\S*) tuples=(\d+) mismatches=(\d+) panics=(\d+) sampled=(\d+) ms=(\d+)", out, re.M):
+        sweeps.append({"table": mm.group(1), "suffix": mm.group(2), "tuples": int(mm.group(3)), "mismatches": int(mm.group(4)),
+                       "panics": int(mm.group(5)), "sampled_events": int(mm.group(6)), "ms": int(mm.group(7))})
+    if "SWEEP-BADTABLE" in out:
+        raise core.ToolError("vh-wire could not read a class table exported by TLC: %s" % out[out.index("SWEEP-BADTABLE"):][:300])
+    mb = re.search(r"BULKLAW slices=(\d+) tuples=(\d+)", out)
+    res.sweeps = sweeps
+    res.bulk = (int(mb.group(1)), int(mb.group(2))) if mb else (0, 0)
     if hang:
         return res, nev, hang[0][5:]
     if rc != 0:
@@ -155,11 +174,67 @@ def long_code_bytes(n=4):
         return []
 
 
+def huff_code_lengths():
+    """Code-word lengths (bits) of the 257 symbols of spec/huffman/HuffTable.tla (256 = EOF)."""
+    s = open(os.path.join(core.SPEC, "huffman", "HuffTable.tla")).read()
+    codes = re.findall(r"<<([01, ]+)>>", s[s.index("Code == <<") + 10:])
+    return [len(c.split(",")) for c in codes[:257]]
+
+
+def tie_payloads(limit=120):
+    """Codec inputs whose compressed form has the input's own length, one byte less, one byte more -- derived
+    from the code-word lengths of spec/huffman/HuffTable.tla (both roundings of the bit count, so that the set
+    does not depend on which one the library uses). Returns (plain inputs, chunk areas for 'area + token 09 08
+    07 06' inputs) as lists of bytes objects; empty when the table is not available."""
+    try:
+        L = huff_code_lengths()
+    except Exception:
+        return [], []
+    if len(L) < 257:
+        return [], []
+    eof = L[256]
+    # two byte values per code-word length
+    by_len = {}
+    for b in range(256):
+        by_len.setdefault(L[b], []).append(b)
+    syms = [b for ln in sorted(by_len) for b in by_len[ln][:2]]
+    tok = [9, 8, 7, 6]
+    tokbits = sum(L[b] for b in tok)
+
+    def clens(bits):
+        return {(bits + 7) // 8, bits // 8 + 1}
+
+    plain, withtok = [], []
+    for n in list(range(1, 41)) + [64, 100, 200, 500, 1000, 1392, 1393]:
+        for a in syms:
+            if any(abs(c - n) <= 1 for c in clens(n * L[a] + eof)):
+                plain.append(bytes([a]) * n)
+            if any(abs(c - (n + 4)) <= 1 for c in clens(n * L[a] + tokbits + eof)):
+                withtok.append(bytes([a]) * n)
+        # two-symbol mixes: i copies of a short-code byte, n - i of a long-code byte
+        for i in range(1, n):
+            a, b = syms[0], syms[-1]
+            if n <= 24 and any(c == n for c in clens(i * L[a] + (n - i) * L[b] + eof)):
+                plain.append(bytes([a]) * i + bytes([b]) * (n - i))
+
+    def thin(xs):
+        xs = sorted(set(xs), key=lambda x: (len(x), x))
+        if len(xs) <= limit:
+            return xs
+        step = len(xs) / float(limit)
+        return [xs[int(i * step)] for i in range(limit)]
+    return thin(plain), thin(withtok)
+
+
 def drive(bins, seed, tier, parts, events_path, timeout=600):
     env = dict(os.environ)
     lc = long_code_bytes()
     if lc:
         env["VH_LONGCODES"] = ",".join(str(b) for b in lc)
+    tp, tt = tie_payloads()
+    if tp:
+        env["VH_TIES"] = ",".join(x.hex() for x in tp)
+        env["VH_TIES_TOK"] = ",".join(x.hex() for x in tt)
     r = subprocess.run([bins + "/vh-wire", "drive", str(seed), tier, parts, events_path], stdout=subprocess.PIPE,
                        stderr=subprocess.PIPE, text=True, timeout=timeout, env=env)
     hang = [l for l in r.stdout.splitlines() if l.startswith("HANG ")]
@@ -351,8 +426,10 @@ def run_property(ctx, pid):
     bins = core.build_harness(["vh-wire"])
     wd = ctx.workdir
     quick = tier == "quick"
-    ctx.coverage["rule"] = ("distinct case inputs (header field tuples, header byte patterns, packet values, datagrams) run through "
-                            "the real code and judged by WireTrace; datagrams rejected as TooShort/TooLong are not counted")
+    ctx.coverage["rule"] = ("distinct case inputs (header field tuples, header byte patterns, packet values, (packet, capacity list) pairs, "
+                            "datagrams, (chunk area, announced count) pairs) run through the real code and judged by WireTrace; datagrams rejected "
+                            "as TooShort/TooLong are not counted; plus every tuple of the header spaces swept against the class tables of "
+                            "WireTab.tla (distinct by construction; the table law is checked by TLC on the same spaces)")
     ctx.assumptions += [
         "Huffman is not modelled in Wire/Wire7: the codec's values (compress of the body, decompress of the datagram body) are "
         "taken from the recorded event; that they are inverse and match the reference is property C07. A codec that is not "
@@ -381,11 +458,23 @@ def run_property(ctx, pid):
     # ---- direction A: every enumerated case through the real code
     cfg = "Exp_%s_%s.cfg" % (pid, tier)
     evA = os.path.join(wd, "A.ndjson")
-    res, nA, hang = tlc_export_exec(ctx, bins, cfg, evA, timeout=1500 if not quick else 400,
+    res, nA, hang = tlc_export_exec(ctx, bins, cfg, evA, timeout=2400 if not quick else 900,
                                     label="MC_Wire %s: laws on every case + export of the cases to the real code" % cfg)
     if hang:
         hang_event(ctx, pid, hang, "direction A")
     paths.append(evA)
+    sweeps = getattr(res, "sweeps", [])
+    if sweeps:
+        ctx.add_run("whole header spaces swept on the real code against the class tables exported from WireTab.tla "
+                    "(every tuple: unpack + re-pack / pack + unpack; differing tuples and a regular sample recorded as events)",
+                    tables=sweeps, tuples=sum(x["tuples"] for x in sweeps), mismatches=sum(x["mismatches"] for x in sweeps))
+        ctx.coverage["header_tuples_swept_on_real_code"] = sum(x["tuples"] for x in sweeps)
+        ctx.coverage["header_tuples_differing_from_table"] = sum(x["mismatches"] for x in sweeps)
+    bulk = getattr(res, "bulk", (0, 0))
+    if bulk[0]:
+        ctx.add_run("header laws + table law checked by TLC in bulk (one state per slice of a header space)",
+                    slices=bulk[0], tuples=bulk[1])
+        ctx.coverage["evaluations_model_bulk"] = ctx.coverage.get("evaluations_model_bulk", 0) + bulk[1]
 
     # ---- direction B: seeded random / structured cases with real sizes
     evB = os.path.join(wd, "B.ndjson")
@@ -400,15 +489,22 @@ def run_property(ctx, pid):
     parts = []
     for p in paths:
         parts += split_file(p, par if os.path.getsize(p) > (4 << 20) else 1)
-    results = validate(ctx, parts, timeout=1500 if not quick else 500, parallel=par)
+    results = validate(ctx, parts, timeout=2400 if not quick else 1200, parallel=par)
     nstates = sum(r.distinct for _, _, r in results)
     ctx.add_run("WireTrace validation", files=len(parts), states=nstates,
                 wall_s=round(sum(r.wall_s for _, _, r in results), 1))
     nviol, ndrift = judge(ctx, pid, results, "wire %s" % pid)
+    nmis = sum(x["mismatches"] for x in sweeps)
+    if nmis and not (nviol or ndrift):
+        raise core.ToolError("%d header tuples differ from the class table but WireTrace accepts their events: table and "
+                             "trace specification disagree" % nmis)
     evals, distinct = count_nontrivial(parts, KINDS[pid])
-    ctx.coverage["evaluations"] = evals
-    ctx.coverage["distinct_nontrivial"] = distinct
+    ctx.coverage["evaluations"] = evals + sum(x["tuples"] for x in sweeps)
+    ctx.coverage["distinct_nontrivial"] = distinct + sum(x["tuples"] for x in sweeps)
     ctx.coverage["exhaustive"] = False
+    if sweeps:
+        ctx.note("headers: exhaustive on the real code (every tuple of %d header spaces, %d tuples) against the class tables; "
+                 "packets: enumerated families + seeded samples" % (len(sweeps), sum(x["tuples"] for x in sweeps)))
     for p in parts:
         for ev in load_events(p)[:2000:400]:
             ctx.sample(case_of(ev))
@@ -440,9 +536,10 @@ def deep_model(ctx, pid, parallel=8, timeout=3000):
         for lo in (0, 256, 512, 768):
             jobs.append(("all in-range header field tuples, slice %d..%d of ack/size/seq" % (lo, lo + 255),
                          _cfg(ctx, "MC_deep_hf_%d.cfg" % lo, "deep", ["hf"], lo, lo + 255)))
-        jobs.append(("header byte patterns (deep boundary sets), packets", _cfg(ctx, "MC_deep_hb.cfg", "deep", ["hb", "rt"], 0, 1023)))
+        jobs.append(("header byte patterns (deep boundary sets), packets", _cfg(ctx, "MC_deep_hb.cfg", "deep", ["hb", "rt", "ctrl", "tie", "wc"], 0, 1023)))
     else:
-        for fam in ("short6", "short7", "cor6", "cor7", "heur6", "comp6", "comp7", "max6", "max7", "close"):
+        for fam in ("short6", "short7", "cor6", "cor7", "heur6", "comp6", "comp7", "max6", "max7", "close",
+                    "ctrlx6", "ctrlx7", "connless7", "tokreq7", "complim6", "complim7", "iter6", "iter7", "ncx6", "ncx7"):
             jobs.append(("reader totality / re-read law on the model: %s (deep)" % fam,
                          _cfg(ctx, "MC_deep_%s.cfg" % fam, "deep", [fam], 0, 1023)))
     import concurrent.futures as cf
